@@ -316,6 +316,10 @@ fn run_once(def: &ScenDef, seed: u64, plan: &[PlanEntry], a: &Args) -> Outcome {
             res = Err(Fail::Violation(format!("residency monitor: {}", w)));
         }
     }
+    if res.is_ok() && hook::UNLINK_VIOLATIONS.swap(0, SeqCst) != 0 {
+        let w = hook::UNLINK_WITNESS.lock().unwrap().take().unwrap_or_default();
+        res = Err(Fail::Violation(format!("timer-list contract monitor: {} - Entry::remove is a consumer-side operation of the list (concurrent with the selector's pop_if it corrupts the links: 'assertion failed: (*tail).value.is_none()', a dead selector thread, every socket of that selector stranded)", w)));
+    }
     let rendered = if res.is_err() { render_events(&x.log.snapshot(), &x.names(), 60) } else { render_events(&x.log.snapshot(), &x.names(), 12) };
     // on failure the Exec (and its possibly stuck actors) is leaked on purpose
     let desc = x.desc.clone();
